@@ -48,10 +48,14 @@ class C13(Check):
             import jax  # noqa: imported once in the parent; the XLA client is created lazily in the child
         except Exception:
             pass
+        try:
+            import torch  # noqa
+        except Exception:
+            pass
 
     def strata(self, tier):
         s = [('S-clean', 3), ('S-fault', 3), ('S-noclear', 3), ('S-opname', 2), ('S-shared', 2), ('S-file', 1),
-             ('S-all', 2), ('S-reuse', 2), ('S-jax', 1)]
+             ('S-all', 2), ('S-reuse', 2), ('S-jax', 1), ('S-torch', 1)]
         if tier == 'thorough':
             s.append(('S-fortran', 1))     # f2py builds: several models compiled to extension modules in one process
         return s
@@ -148,6 +152,9 @@ class C13(Check):
                 # own precision when models of another precision are compiled later
                 kind = 'compile'
                 kw.update({'backend': 'jax', 'float_precision': rng.choice(['float64', 'float32']), 'in_place': False})
+            if stratum == 'S-torch':
+                kind = 'run'
+                kw.update({'backend': 'torch', 'in_place': rng.random() < 0.5})
             if stratum == 'S-fortran':
                 kind = 'run'          # the f2py routine is observed through run(); its call signature is backend-specific
                 kw.update({'vectorize': False, 'float_precision': 'float64', 'backend': 'fortran',
@@ -163,6 +170,8 @@ class C13(Check):
                            'solver': 'euler' if stratum == 'S-fortran' else rng.choice(['euler', 'euler', 'heun']),
                            'outputs': {f'o{i}': n for i, n in enumerate(net.state_names)}})
                 ops.append({'wf': wid, 'op': 'run', 'obj': M, 'kw': kw})
+                if any(o['lib'] == 'sat' for o in spec['ops'].values()) and rng.random() < (0.5 if stratum == 'S-torch' else 0.12):
+                    ops[-1]['custom_ops'] = True      # this run brings its own definition of tanh (keyword `ops`)
                 if spec.get('build') == 'yaml' and stratum != 'S-fortran' and rng.random() < 0.35 \
                         and not any(o['op'] == 'update_var' for o in ops):
                     # pyrates.integrate(<template path>, ...): the FILE is simulated (whether the path cache still holds the
